@@ -12,6 +12,9 @@ for f in findings/*.json; do
   VERIF_REPO="$WT" ./check "$prop" --replay "$f" >/dev/null 2>&1; old=$?
   ./check "$prop" --replay "$f" >/dev/null 2>&1; new=$?
   echo "$f pinned=$old repaired=$new"
-  [ "$old" = 1 ] && [ "$new" = 0 ] || rc=1
+  case "$(basename $f)" in
+    K*) [ "$new" = 1 ] || rc=1 ;;   # known, not repaired: still reproduces
+    *)  [ "$old" = 1 ] && [ "$new" = 0 ] || rc=1 ;;
+  esac
 done
 exit $rc
